@@ -123,6 +123,10 @@ class Engine:
         self.timeout_ms = timeout_ms
         self.feas_timeout_ms = min(timeout_ms, 5000)
         self.feas_cache = {}
+        self._sx = {}
+        self.int_mode = False
+        self.inc = None
+        self.inc_n = 0
         self.portfolio = True
         self.first_slice_ms = 3000
         import tempfile
@@ -147,6 +151,7 @@ class Engine:
         self.path_events = []
         vals.HOOKS['branch'] = self.branch
         vals.HOOKS['choose'] = self.choose
+        vals.HOOKS['permute'] = self.permute
 
     # ------------------------------------------------------------ solver
     def check(self, extra, timeout_ms=None, want=None):
@@ -156,8 +161,27 @@ class Engine:
         solver that answered is counted in stats.by_solver."""
         t0 = time.time()
         tmo = timeout_ms or self.timeout_ms
+        if self.int_mode and not ctx().defn:
+            # integer-only unit: incremental solver holding base + path condition
+            if self.inc is None:
+                self.inc_check(z3.BoolVal(True))
+            while self.inc_n < len(self.pc):
+                self.inc.add(self.pc[self.inc_n])
+                self.inc_n += 1
+            self.inc.push()
+            self.inc.add(extra)
+            r = self.inc.check()
+            model = self.inc.model() if r == z3.sat else None
+            self.inc.pop()
+            self.stats.queries += 1
+            self.stats.solver_s += time.time() - t0
+            self.stats.by_solver['z3py-inc'] = self.stats.by_solver.get('z3py-inc', 0) + 1
+            self.last_formulas = self.base + self.pc + extra
+            return r, model
         fs = self.base + self.pc + extra
-        fs = fs + ctx().cone(fs)
+        fs = fs + (ctx().cone(fs) if ctx().defn else [])
+        seen_f = set()
+        fs = [f for f in fs if not (f.get_id() in seen_f or seen_f.add(f.get_id()))]
         s = z3.Solver()
         s.set('timeout', min(tmo, self.first_slice_ms))
         s.set('random_seed', self.seed)
@@ -242,16 +266,40 @@ class Engine:
         if z3.is_false(c):
             return False
         # paths are re-executed from the start (decision prefixes), so the same feasibility questions recur: cache them
-        key = hash((tuple(x.get_id() if False else x.sexpr() for x in self.pc), c.sexpr()))
+        sx = self._sx
+        key = hash((tuple(sx.get(id(x)) or sx.setdefault(id(x), x.sexpr()) for x in self.pc), c.sexpr()))
         hit = self.feas_cache.get(key)
         if hit is not None:
             self.stats.cache_hits = getattr(self.stats, 'cache_hits', 0) + 1
             return hit
-        r, _ = self.check([c], self.feas_timeout_ms)
+        if self.int_mode and not ctx().defn:
+            r = self.inc_check(c)
+        else:
+            r, _ = self.check([c], self.feas_timeout_ms)
         # unknown is treated as feasible (sound for violation search, may add paths)
         res = (r != z3.unsat)
         self.feas_cache[key] = res
         return res
+
+    def inc_check(self, c):
+        """integer-only units: one incremental solver per path (LIA is fine in push/pop mode)"""
+        t0 = time.time()
+        if self.inc is None:
+            self.inc = z3.Solver()
+            self.inc.set('timeout', self.feas_timeout_ms)
+            self.inc.add(self.base)
+            self.inc_n = 0
+        while self.inc_n < len(self.pc):
+            self.inc.add(self.pc[self.inc_n])
+            self.inc_n += 1
+        self.inc.push()
+        self.inc.add(c)
+        r = self.inc.check()
+        self.inc.pop()
+        self.stats.queries += 1
+        self.stats.solver_s += time.time() - t0
+        self.stats.by_solver['z3py-inc'] = self.stats.by_solver.get('z3py-inc', 0) + 1
+        return r
 
     def choose(self, options):
         """options: [(cond, payload)] - fork over the feasible ones"""
@@ -275,6 +323,15 @@ class Engine:
         if is_sym(c):
             self.pc.append(c)
         return p
+
+    def permute(self, items):
+        """a symbolic order of an unordered collection: fork element by element"""
+        rest = list(items)
+        out = []
+        while rest:
+            k = 0 if len(rest) == 1 else self.choose([(z3.BoolVal(True), i) for i in range(len(rest))])
+            out.append(rest.pop(k))
+        return out
 
     def branch(self, cond):
         if isinstance(cond, bool):
@@ -309,6 +366,9 @@ class Engine:
             dec = work.pop()
             vals.CTX[0] = Ctx()
             self.pc = []
+            self._sx = {}
+            self.inc = None
+            self.inc_n = 0
             self.dec = list(dec)
             self.used = 0
             self.alts = []
@@ -319,8 +379,10 @@ class Engine:
                 res = run_one()
                 self.stats.paths += 1
                 on_path(res)
-            except Abort:
+            except Abort as ab:
                 self.stats.pruned += 1
+                if os.environ.get('VERIF_TRACE'):
+                    print('  abort:', ab, self.call_stack[-2:], flush=True)
             except Panic as p:
                 self.stats.paths += 1
                 if on_panic:
@@ -345,8 +407,9 @@ class Engine:
         if callee.startswith('<Self as ') and self.self_types and self.self_types[-1]:
             dyn_type = self.self_types[-1]
             callee = '<dyn Self as ' + callee[len('<Self as '):]
-        short = strip_generics(callee).split('::')[-1]
-        ob = self.observers.get(short)
+        _segs = [x for x in strip_generics(callee).split('::') if x]
+        short = _segs[-1] if _segs else callee
+        ob = self.observers.get('::'.join(_segs[-2:])) or self.observers.get(short)
         if ob:
             r = ob(self, callee, args)
             if r is not NotImplemented:
@@ -432,7 +495,15 @@ class Engine:
             return INT_TYPES[m.group(1)][1]
         if re.fullmatch(r'(?:std|core)::option::Option::<.*>::None', v, re.S):
             return En('None')
-        if v.startswith('ZeroSized') or re.match(r'^(\{closure|PhantomData|std::marker::PhantomData)', v):
+        if v.startswith('ZeroSized'):
+            mcl = re.search(r'\{closure@([^}]*)\}', v)
+            if mcl:
+                return Closure(mcl.group(1), [])
+            mfn = re.match(r'ZeroSized: (?:for<[^>]*> )?(?:unsafe )?fn\(.*\)(?: -> .*?)? \{(.*)\}$', v, re.S)
+            if mfn:
+                return Closure('fn:' + mfn.group(1), [])
+            return Opaque('zst')
+        if re.match(r'^(\{closure|PhantomData|std::marker::PhantomData)', v):
             return Opaque('zst')
         # named constant of this crate
         item = self.mir.const_item(v)
@@ -746,10 +817,10 @@ class Engine:
         if rv.startswith('PtrMetadata('):
             v = operand(rv[12:-1])
             v = v.get() if isinstance(v, Ref) else v
-            return len(v.items if isinstance(v, (VecV, SliceV)) else v)
+            return len(v._items if isinstance(v, VecV) else v.items if isinstance(v, SliceV) else v)
         if rv.startswith('Len('):
             v = rd(parse_place(rv[4:-1]))
-            return len(v.items if isinstance(v, (VecV, SliceV)) else v)
+            return len(v._items if isinstance(v, VecV) else v.items if isinstance(v, SliceV) else v)
         if rv.startswith('&raw const ') or rv.startswith('&raw mut '):
             return mkref(parse_place(rv.split(' ', 2)[2]))
         if rv.startswith('&mut '):
